@@ -1,6 +1,7 @@
 CFG = {
     "prop_v": "theories/Properties/C11.v",
     "cmd": "c11",
+    "extra_closure": ("theories/C11/ModelLR1.v",),
     "batches": lambda tier, seed: [("classic", "-mode classic -tier %s" % tier),
                                    ("exhaustive", "-mode exhaustive -tier %s" % tier),
                                    ("random", "-mode random -tier %s" % tier),
